@@ -132,7 +132,7 @@ class CFG(object):
         count = [0]
         cut = self.back_edges
 
-        def rec(n, seq, onpath):
+        def rec(n, seq, onpath, taken):
             count[0] += 1
             if count[0] > cap * 50:
                 raise AnalysisError('path enumeration exceeded budget')
@@ -144,14 +144,25 @@ class CFG(object):
                 if len(out) > cap:
                     raise AnalysisError('too many distinct event sequences')
                 return
-            nxt = [s for s in self.succ[n] if (n, s) not in cut and s not in onpath and s not in avoid]
+            nxt = []
+            for s in self.succ[n]:
+                if s in avoid:
+                    continue
+                if s in stops:
+                    nxt.append(s)
+                    continue
+                if (n, s) in taken:
+                    continue
+                # an inner loop head may be re-entered once through its back edge: the body is then not taken again
+                if s in onpath and not (self.nodes[s].kind == 'loop' and onpath.count(s) < 2):
+                    continue
+                nxt.append(s)
             if not nxt:
-                # dead end (e.g. back edge cut): treat as reaching loop end
                 out.add(seq + ('<cut>',))
                 return
             for s in nxt:
-                rec(s, seq, onpath | {s})
-        rec(start, (), {start})
+                rec(s, seq, onpath + (s,), taken | {(n, s)})
+        rec(start, (), (start,), frozenset())
         return out
 
 
